@@ -179,12 +179,32 @@ def handleLine (L : Layout) (line : String) : String :=
       else "bad-op"
     | _, _, _ => "bad-op"
 
+/-- `nestk <bsd|sysv> <U|O> <k>`: the model's outcome of SIGINT with SIGTERM nested after `k` steps of its handler,
+    followed by a third SIGINT; from the state after constructor + `SetHandler(1,1)` (U) resp. one earlier SIGINT (O).
+    Compared by the check with the real code stepped instruction by instruction (harness/h_signal_pt.cc). -/
+def nestLine (L : Layout) (m sc k : String) : String :=
+  match parseMode m, k.toNat? with
+  | some md, some kk =>
+    let pre := (expandProg L [.ctor, .reg 1 1]).map Ev.step ++ (if sc == "O" then [Ev.sig .int] else [])
+    if sc != "U" && sc != "O" then "bad-op" else
+    let s0 := (run md init pre).1
+    let r := deliverNested md s0 .int .term kk
+    let ncb := fun (o : List Obs) => (o.filter (fun x => match x with | .cb _ _ => true | _ => false)).length
+    if r.1.halted.isSome then "pair=exit1 callbacks=- third=-"
+    else
+      let t := deliver md r.1 .int
+      let c0 := ncb (run md init pre).2 + ncb r.2
+      s!"pair={r.1.stop} callbacks={c0} third=" ++ (if t.1.halted.isSome then "exit1" else "alive")
+  | _, _ => "bad-op"
+
 partial def loop (L : Layout) (h : IO.FS.Stream) (out : IO.FS.Stream) : IO Unit := do
   let line ← h.getLine
   if line.isEmpty then return ()
   if line.trimAscii.toString.isEmpty then loop L h out
   else
-    out.putStrLn (handleLine L line)
+    match (line.trimAscii.toString.splitOn " ").filter (· ≠ "") with
+    | ["nestk", m, sc, k] => out.putStrLn (nestLine L m sc k)
+    | _ => out.putStrLn (handleLine L line)
     loop L h out
 
 /-- `drv_c15 [pinned|ctorfix|regfix|fixed]` (default pinned): the store order the model uses -/
